@@ -2209,7 +2209,9 @@ extern int32 dtlsWriteCertificateRequest(psPool_t *pool, ssl_t *ssl, int32 certL
 extern int32 dtlsComputeCookie(ssl_t *ssl, unsigned char *helloBytes,
                                int32 helloLen);
 extern void dtlsInitFrag(ssl_t *ssl);
-extern int32 dtlsSeenFrag(ssl_t *ssl, int32 fragOffset, int32 *hdrIndex);
+extern int32 dtlsSeenFrag(ssl_t *ssl, int32 fragOffset, int32 fragLen,
+                          int32 *hdrIndex);
+extern int32 dtlsFragCoverage(ssl_t *ssl);
 extern int32 dtlsHsHashFragMsg(ssl_t *ssl);
 extern int32 dtlsCompareEpoch(unsigned char *incoming, unsigned char *expected);
 extern void incrTwoByte(ssl_t *ssl, unsigned char *c, int sending);
